@@ -545,8 +545,10 @@ func (c *Conn) closeWithError(err error) {
 		c.calls = nil
 	}
 	c.mu.Unlock()
+	verifYield("close.unlocked", c, 0)
 
 	for _, req := range callsToClose {
+		verifYield("close.deliver", c, req.streamID)
 		// we need to send the error to all waiting queries.
 		select {
 		case req.resp <- callResp{err: err}:
@@ -562,8 +564,10 @@ func (c *Conn) closeWithError(err error) {
 	}
 
 	// if error was nil then unblock the quit channel
+	verifYield("close.beforeCancel", c, 0)
 	c.cancel()
 	cerr := c.close()
+	verifYield("close.beforeHandler", c, 0)
 
 	if err != nil {
 		c.errorHandler.HandleError(c, err, true)
@@ -675,6 +679,7 @@ func (c *Conn) recv(ctx context.Context) error {
 	if err != nil {
 		return err
 	}
+	verifYield("recv.header", c, head.stream)
 
 	if c.frameObserver != nil {
 		c.frameObserver.ObserveFrameHeader(context.Background(), ObservedFrameHeader{
@@ -725,6 +730,7 @@ func (c *Conn) recv(ctx context.Context) error {
 	call, ok := c.calls[head.stream]
 	delete(c.calls, head.stream)
 	c.mu.Unlock()
+	verifYield("recv.removed", c, head.stream)
 	if call == nil || !ok {
 		c.logger.Printf("gocql: received response for stream which has no handler: header=%v\n", head)
 		return c.discardFrame(head)
@@ -745,9 +751,11 @@ func (c *Conn) recv(ctx context.Context) error {
 
 	// we either, return a response to the caller, the caller timedout, or the
 	// connection has closed. Either way we should never block indefinatly here
+	verifYield("recv.deliver", c, head.stream)
 	select {
 	case call.resp <- callResp{framer: framer, err: err}:
 	case <-call.timeout:
+		verifYield("recv.lateRelease", c, head.stream)
 		c.releaseStream(call)
 	case <-ctx.Done():
 	}
@@ -760,6 +768,7 @@ func (c *Conn) releaseStream(call *callReq) {
 		call.timer.Stop()
 	}
 
+	verifYield("release.beforeClear", c, call.streamID)
 	c.streams.Clear(call.streamID)
 
 	if call.streamObserverContext != nil {
@@ -841,6 +850,7 @@ func (c *deadlineContextWriter) writeContext(ctx context.Context, p []byte) (int
 	case c.semaphore <- struct{}{}:
 		// acquired
 	}
+	verifYield("dw.acquired", nil, 0)
 
 	defer func() {
 		// release
@@ -910,6 +920,7 @@ func (w *writeCoalescer) writeContext(ctx context.Context, p []byte) (int, error
 	case w.writeCh <- wr:
 		// enqueued for writing
 	}
+	verifYield("wc.enqueued", nil, 0)
 
 	if w.testEnqueuedHook != nil {
 		w.testEnqueuedHook()
@@ -959,6 +970,7 @@ func (w *writeCoalescer) writeFlusherImpl(timerC <-chan time.Time, resetTimer fu
 			return
 		case <-timerC:
 			running = false
+			verifYield("wc.beforeFlush", nil, 0)
 			w.flush(resultChans, buffers)
 			buffers = nil
 			resultChans = nil
@@ -987,6 +999,7 @@ func (w *writeCoalescer) flush(resultChans []chan<- writeResult, buffers net.Buf
 	buffers2 := make(net.Buffers, len(buffers))
 	copy(buffers2, buffers)
 	n, err := buffers2.WriteTo(w.c)
+	verifYield("wc.afterWrite", nil, 0)
 	// Writes of bytes before n succeeded, writes of bytes starting from n failed with err.
 	// Use n as remaining byte counter.
 	for i := range buffers {
@@ -1036,6 +1049,7 @@ func (c *Conn) exec(ctx context.Context, req frameBuilder, tracer Tracer) (*fram
 	if !ok {
 		return nil, ErrNoStreams
 	}
+	verifYield("exec.gotStream", c, stream)
 
 	// resp is basically a waiting semaphore protecting the framer
 	framer := newFramer(c.compressor, c.version)
@@ -1053,6 +1067,7 @@ func (c *Conn) exec(ctx context.Context, req frameBuilder, tracer Tracer) (*fram
 	if err := c.addCall(call); err != nil {
 		return nil, err
 	}
+	verifYield("exec.added", c, stream)
 
 	// After this point, we need to either read from call.resp or close(call.timeout)
 	// since closeWithError can try to write a connection close error to call.resp.
@@ -1086,12 +1101,14 @@ func (c *Conn) exec(ctx context.Context, req frameBuilder, tracer Tracer) (*fram
 		return nil, err
 	}
 
+	verifYield("exec.beforeWrite", c, stream)
 	n, err := c.w.writeContext(ctx, framer.buf)
 	if err != nil {
 		// closeWithError will block waiting for this stream to either receive a response
 		// or for us to timeout, close the timeout chan here. Im not entirely sure
 		// but we should not get a response after an error on the write side.
 		close(call.timeout)
+		verifYield("exec.writeErr", c, stream)
 		if (errors.Is(err, context.Canceled) || errors.Is(err, context.DeadlineExceeded)) && n == 0 {
 			// We have not started to write this frame.
 			// Release the stream as no response can come from the server on the stream.
@@ -1114,6 +1131,7 @@ func (c *Conn) exec(ctx context.Context, req frameBuilder, tracer Tracer) (*fram
 		return nil, err
 	}
 
+	verifYield("exec.afterWrite", c, stream)
 	var timeoutCh <-chan time.Time
 	if c.timeout > 0 {
 		if call.timer == nil {
@@ -1139,6 +1157,7 @@ func (c *Conn) exec(ctx context.Context, req frameBuilder, tracer Tracer) (*fram
 
 	select {
 	case resp := <-call.resp:
+		verifYield("exec.gotResp", c, stream)
 		close(call.timeout)
 		if resp.err != nil {
 			if !c.Closed() {
@@ -1164,13 +1183,16 @@ func (c *Conn) exec(ctx context.Context, req frameBuilder, tracer Tracer) (*fram
 
 		return resp.framer, nil
 	case <-timeoutCh:
+		verifYield("exec.timedOut", c, stream)
 		close(call.timeout)
 		c.handleTimeout()
 		return nil, ErrTimeoutNoResponse
 	case <-ctxDone:
+		verifYield("exec.ctxDone", c, stream)
 		close(call.timeout)
 		return nil, ctx.Err()
 	case <-c.ctx.Done():
+		verifYield("exec.connDone", c, stream)
 		close(call.timeout)
 		return nil, ErrConnectionClosed
 	}
@@ -1246,8 +1268,10 @@ func (c *Conn) prepareStatement(ctx context.Context, stmt string, tracer Tracer)
 	})
 
 	if !ok {
+		verifYield("prep.winner", c, 0)
 		go func() {
 			defer close(flight.done)
+			defer verifYield("prep.beforeDone", c, 0)
 
 			prep := &writePrepareFrame{
 				statement: stmt,
@@ -1259,9 +1283,11 @@ func (c *Conn) prepareStatement(ctx context.Context, stmt string, tracer Tracer)
 			// we won the race to do the load, if our context is canceled we shouldnt
 			// stop the load as other callers are waiting for it but this caller should get
 			// their context cancelled error.
+			verifYield("prep.beforeExec", c, 0)
 			framer, err := c.exec(c.ctx, prep, tracer)
 			if err != nil {
 				flight.err = err
+				verifYield("prep.beforeRemove", c, 0)
 				c.session.stmtsLRU.remove(stmtCacheKey)
 				return
 			}
@@ -1297,9 +1323,12 @@ func (c *Conn) prepareStatement(ctx context.Context, stmt string, tracer Tracer)
 			}
 
 			if flight.err != nil {
+				verifYield("prep.beforeRemove", c, 0)
 				c.session.stmtsLRU.remove(stmtCacheKey)
 			}
 		}()
+	} else {
+		verifYield("prep.wait", c, 0)
 	}
 
 	select {
